@@ -291,7 +291,8 @@ fn deserialize<'a>(ty: &OwnedDataModelType, data: &'a [u8]) -> Result<(Value, &'
                 }
             }
         }
-        OwnedDataModelType::Schema => todo!(),
+        // Not implemented yet: report it instead of panicking on untrusted input
+        OwnedDataModelType::Schema => Err(Error::ShouldSupportButDont),
     }
 }
 
